@@ -146,7 +146,7 @@ def run(ctx):
     ev = {"epoch": "datetime(1970, 1, 1, tzinfo=timezone.utc)", "epoch_naive": "datetime(1970, 1, 1)"}
     for nm, want in ev.items():
         r = p.resolve(lrm, nm)
-        ctx.check("C16.R3", f"readers' {nm} = {want}", r is not None and r[0] == "value" and norm(r[2]) == want, lrm.relpath + ":" + nm, f"{nm} = {norm(r[2]) if r and r[0] == 'value' else r}", "epoch constant differs from 1970-01-01 (UTC-aware / naive)")
+        ctx.check("C16.R3", f"readers' {nm} = {want}", r is not None and r[0] == "value" and norm(r[2]).replace("datetime.datetime(", "datetime(").replace("datetime.timezone.", "timezone.") == want, lrm.relpath + ":" + nm, f"{nm} = {norm(r[2]) if r and r[0] == 'value' else r}", "epoch constant differs from 1970-01-01 (UTC-aware / naive)")
     lwm = p.module("_logical_writers_py")
     for name in ("prepare_local_timestamp_millis", "prepare_local_timestamp_micros"):
         f = lwm.functions[name]
